@@ -277,6 +277,8 @@ func c13EngineWritten(rt *rapid.T, c *evid.Collector) {
 		if rapid.Bool().Draw(rt, "ewKeyed") {
 			p.IdempotencyKey = fmt.Sprintf("key-%d", i)
 		}
+		// previews in between: they write nothing, so the chain of what IS written must still verify
+		p.DryRun = rapid.IntRange(0, 3).Draw(rt, "ewPreview") == 0
 		var md metadata.Metadata
 		switch rapid.IntRange(0, 2).Draw(rt, "ewMeta") {
 		case 1:
@@ -293,12 +295,12 @@ func c13EngineWritten(rt *rapid.T, c *evid.Collector) {
 			switch kind {
 			case "create":
 				_, err = commander.CreateTransaction(ctx, p, ledger.TxToScriptData(ledger.TransactionData{Postings: ledger.Postings{ledger.NewPosting("world", "a", "USD", new(big.Int).Set(gen.Amount().Draw(rt, "ewAmount")))}, Metadata: md}, false))
-				if err == nil {
+				if err == nil && !p.DryRun {
 					txs++
 				}
 			case "revert":
 				_, err = commander.RevertTransaction(ctx, p, big.NewInt(int64(rapid.IntRange(0, txs-1).Draw(rt, "ewTarget"))), true)
-				if err == nil {
+				if err == nil && !p.DryRun {
 					txs++
 				}
 			case "save_meta_account":
@@ -315,7 +317,7 @@ func c13EngineWritten(rt *rapid.T, c *evid.Collector) {
 			violation(rt, c, "C13/engine/panic", "write %d (%s) panicked: %v", i, kind, pn)
 			return
 		}
-		fmt.Fprintf(&desc, "%s/key=%v/meta=%d;", kind, p.IdempotencyKey != "", len(md))
+		fmt.Fprintf(&desc, "%s/key=%v/preview=%v/meta=%d;", kind, p.IdempotencyKey != "", p.DryRun, len(md))
 	}
 	var prevStore *ledger.ChainedLog
 	for i, e := range store.Entries {
@@ -349,7 +351,7 @@ func c13EngineWritten(rt *rapid.T, c *evid.Collector) {
 
 func TestC13(t *testing.T) {
 	c := evid.New("C13")
-	c.Rule = "generated chains of 1-12 log entries (all 7 kind x target shapes built with the code's constructors; API-format timestamps through ledger.ParseTime; amounts to 10^40; nil/empty/unicode/HTML/long metadata; references; idempotency keys); one case in ten instead lets a real Commander write 2-8 entries (every kind of write, keyed or not, metadata nil / empty / filled) and judges what it persisted. evaluations = log entries judged. Non-trivial = entry that is not a bare new-transaction with one posting, no metadata, no key; distinct = by canonical JSON of the entry."
+	c.Rule = "generated chains of 1-12 log entries (all 7 kind x target shapes built with the code's constructors; API-format timestamps through ledger.ParseTime; amounts to 10^40; nil/empty/unicode/HTML/long metadata; references; idempotency keys); one case in ten instead lets a real Commander write 2-8 entries (every kind of write, keyed or not, metadata nil / empty / filled, a quarter of the requests previews that must leave the chain alone) and judges what it persisted. evaluations = log entries judged. Non-trivial = entry that is not a bare new-transaction with one posting, no metadata, no key; distinct = by canonical JSON of the entry."
 	c.Assumptions = []string{
 		"PostgreSQL jsonb is emulated by a generic decode (exact numbers) and re-encode; timestamptz by an instant truncated to microseconds returned as time.Time",
 		"log dates are what ledger.Now() yields (UTC, microsecond precision), as in every constructor call of the engine",
